@@ -30,6 +30,9 @@ type C02Scenario struct {
 	HolderKey int         `json:"holder_key"` // -1: none; else a task holds this key behind a gate while the others (never touching it) must all finish
 	HolderW   bool        `json:"holder_write"`
 	NKeys     int         `json:"nkeys"`
+	// HolderMass > 0: the gated holder read-locks its key this many times (as that many readers would); once everybody else is done a
+	// prober read-locks and unlocks the key once and then asks for the write lock, which must wait for every one of the holds
+	HolderMass int `json:"holder_mass,omitempty"`
 }
 
 // klAdapter hides the two interfaces.
@@ -121,6 +124,11 @@ func drawC02(rt *rapid.T) interface{} {
 	if rapid.IntRange(0, 3).Draw(rt, "indep") == 0 {
 		sc.HolderKey = rapid.IntRange(0, nk-1).Draw(rt, "holderkey")
 		sc.HolderW = rapid.Bool().Draw(rt, "holderw")
+		if rapid.IntRange(0, 19).Draw(rt, "mass") == 0 {
+			// many simultaneous read holds of one key: per-key counters beyond the range of a byte
+			sc.HolderW = false
+			sc.HolderMass = rapid.SampledFrom([]int{200, 255, 256, 257, 300}).Draw(rt, "massn")
+		}
 	}
 	var pool []int
 	for k := 0; k < nk; k++ {
@@ -157,6 +165,17 @@ func drawC02(rt *rapid.T) interface{} {
 		sc.Clients = append(sc.Clients, rs)
 	}
 	sc.Knobs = hx.DrawKnobs(rt, nil)
+	if sc.HolderMass > 0 {
+		// a 16-bit number of holds costs more than a million scheduling steps: about 1 in 2000 of the mass scenarios (1 in 250 in the
+		// thorough tier), decided by a mix of values already drawn (rapid's own small ranges are heavily biased towards 0)
+		h := uint64(sc.Knobs.Seed)*0x9e3779b97f4a7c15 + uint64(nc)*7919 + uint64(nk)*104729 + uint64(sc.HolderMass)
+		h ^= h >> 31
+		h *= 0xbf58476d1ce4e5b9
+		h ^= h >> 29
+		if h%uint64(hx.Pick(2000, 250)) == 0 {
+			sc.HolderMass = 65535 + int(h>>40)%3
+		}
+	}
 	return sc
 }
 
@@ -165,6 +184,8 @@ type klAcq struct {
 	r      klRound
 	active bool // inside lock()
 	held   bool
+	n      int // number of holds this record stands for (0 = 1)
+	extra  int // a further hold of the same key that is being taken or given back right now (registered or not)
 }
 
 type c02State struct {
@@ -178,6 +199,7 @@ func runC02(t *testing.T, sci interface{}, keepLog bool) *hx.Outcome {
 	sc := sci.(*C02Scenario)
 	st := &c02State{readers: map[int]int{}, writers: map[int]int{}}
 	gateOpen := false
+	holderReady := false // the holder has taken all its holds
 
 	observe := func(s *simrt.Sim) {
 		if st.a == nil || !s.APIQuiescent() {
@@ -189,6 +211,11 @@ func runC02(t *testing.T, sci interface{}, keepLog bool) *hx.Outcome {
 		holdR, holdW, waitR, waitW := map[int]int{}, map[int]int{}, map[int]int{}, map[int]int{}
 		for _, q := range st.acqs {
 			blocked := q.active && q.task != nil && q.task.Blocked()
+			if q.extra > 0 {
+				for _, k := range q.r.Keys {
+					waitR[k] += q.extra
+				}
+			}
 			if !q.held && !blocked {
 				continue
 			}
@@ -196,6 +223,8 @@ func runC02(t *testing.T, sci interface{}, keepLog bool) *hx.Outcome {
 				switch {
 				case q.held && q.r.Write:
 					holdW[k]++
+				case q.held && q.n > 0:
+					holdR[k] += q.n
 				case q.held:
 					holdR[k]++
 				case q.r.Write:
@@ -260,12 +289,43 @@ func runC02(t *testing.T, sci interface{}, keepLog bool) *hx.Outcome {
 				st.a.lock(hr)
 				me.ExitAPI()
 				hq.active, hq.held = false, true
+				if sc.HolderMass > 0 {
+					hq.n = 1
+				}
+				for i := 1; i < sc.HolderMass; i++ {
+					// one more read hold of the same key (no writer can be waiting: nobody else touches the key before the gate)
+					me.EnterAPI("lock")
+					hq.extra = 1
+					st.a.lock(hr)
+					hq.n, hq.extra = i+1, 0
+					me.ExitAPI()
+				}
+				if sc.HolderMass > 0 {
+					hq.n = sc.HolderMass
+					st.readers[sc.HolderKey] += sc.HolderMass
+					s.Count("mass-read-holds")
+					if sc.HolderMass > 60000 {
+						s.Count("mass-read-holds-16-bit")
+					}
+				}
 				s.Logf("holder holds key %d", sc.HolderKey)
+				holderReady = true
 				s.Block(me, func() bool { return gateOpen }, "harness:gate")
+				for i := sc.HolderMass; i > 1; i-- {
+					me.EnterAPI("unlock")
+					st.readers[sc.HolderKey]--
+					hq.n, hq.extra = i-1, 1
+					st.a.unlock(hr)
+					hq.extra = 0
+					me.ExitAPI()
+				}
 				me.EnterAPI("unlock")
+				if sc.HolderMass > 0 {
+					st.readers[sc.HolderKey]--
+				}
+				hq.held = false
 				st.a.unlock(hr)
 				me.ExitAPI()
-				hq.held = false
 			})
 		}
 		var ts []*simrt.Task
@@ -325,15 +385,64 @@ func runC02(t *testing.T, sci interface{}, keepLog bool) *hx.Outcome {
 		hx.WaitDone(s, ts...)
 		if holder != nil {
 			s.Count("independence-scenario")
+			var prober *simrt.Task
+			if sc.HolderMass > 0 && !s.Failed() {
+				// (a write request arriving while the holder is still adding read holds would, by writer preference, block them)
+				s.Block(simrt.Cur(), func() bool { return holderReady }, "harness:holder-ready")
+				k := sc.HolderKey
+				prober = simrt.GoNamed("prober", func() {
+					me := simrt.Cur()
+					rr := klRound{Keys: []int{k}}
+					q := &klAcq{task: me, r: rr, active: true}
+					st.acqs = append(st.acqs, q)
+					me.EnterAPI("lock")
+					st.a.lock(rr)
+					me.ExitAPI()
+					q.active, q.held = false, true
+					if st.writers[k] != 0 {
+						s.Fail("exclusion-reader-with-writer", "key %d read-locked beside %d writer(s)", k, st.writers[k])
+					}
+					st.readers[k]++
+					simrt.Yield()
+					st.readers[k]--
+					me.EnterAPI("unlock")
+					q.held = false
+					st.a.unlock(rr)
+					me.ExitAPI()
+					st.removeAcq(q)
+					wr := klRound{Write: true, Keys: []int{k}}
+					q = &klAcq{task: me, r: wr, active: true}
+					st.acqs = append(st.acqs, q)
+					me.EnterAPI("lock")
+					st.a.lock(wr)
+					me.ExitAPI()
+					q.active, q.held = false, true
+					if st.readers[k] != 0 || st.writers[k] != 0 {
+						s.Fail("exclusion-writer-not-alone", "key %d write-locked beside %d reader(s) and %d writer(s)", k, st.readers[k], st.writers[k])
+					}
+					st.writers[k]++
+					simrt.Yield()
+					st.writers[k]--
+					me.EnterAPI("unlock")
+					q.held = false
+					st.a.unlock(wr)
+					me.ExitAPI()
+					st.removeAcq(q)
+				})
+				hx.WaitBlockedOrDone(s, prober)
+			}
 			gateOpen = true
 			hx.WaitDone(s, holder)
+			if prober != nil {
+				hx.WaitDone(s, prober)
+			}
 		}
 		if n := st.a.entries(); n != 0 {
 			s.Fail("residue-entry", "every lock was released, yet the locker keeps %d entr(y/ies)", n)
 		}
 	}
 
-	res := hx.RunSim(t, sc.Knobs.Config(keepLog, 60000), func(s *simrt.Sim) { s.OnQuiescent = observe }, main)
+	res := hx.RunSim(t, sc.Knobs.Config(keepLog, 60000+40*sc.HolderMass), func(s *simrt.Sim) { s.OnQuiescent = observe }, main)
 	o := hx.FromResult(res)
 	if o.Class == "" && res.Stuck {
 		if sc.HolderKey >= 0 && !gateOpen {
@@ -362,9 +471,9 @@ func TestC02(t *testing.T) {
 		Run:         runC02,
 		Real:        []string{"syncx/keylock (KeyLocker, KeyLockerGrp, TKeyLocker[int], TKeyLockerGrp[int], modulo and xxhash; simgen-transformed)", "remap", "x/exp/slices"},
 		Stubs:       []string{"sync (simsync.Mutex, simsync.RWMutex with Go's writer preference)", "goroutine scheduling (simrt)"},
-		Rule: "scenario = locker variant x shard count x 2-6 clients x 1-4 rounds of Lock/RLock or ordered duplicate-free Locks/RLocks over 2-5 keys, optionally a gated holder of a key nobody else touches (independence) x scheduler knobs/tape; " +
+		Rule: "scenario = locker variant x shard count x 2-6 clients x 1-4 rounds of Lock/RLock or ordered duplicate-free Locks/RLocks over 2-5 keys, optionally a gated holder of a key nobody else touches (independence; 1 in 20 of these: the holder takes 200-300 read holds of its key, rarely 65535-65537, and a prober then read-locks it once and asks for the write lock) x scheduler knobs/tape; " +
 			"non-trivial = >=2 tasks and >=1 context switch; distinct = distinct event-log hash",
-		Probes: []string{"multi-key-held", "independence-scenario"},
+		Probes: []string{"multi-key-held", "independence-scenario", "mass-read-holds", "mass-read-holds-16-bit"},
 		Assumptions: []string{"simsync.RWMutex reproduces Go's writer preference (a pending writer blocks new readers; readers queued behind it are admitted on Unlock before the next writer)",
 			"each client holds one lock set at a time; multi-key lists are ascending and duplicate-free (the property's restriction)"},
 	})
